@@ -33,11 +33,11 @@ def unquote (b : Bytes) : Option Bytes :=
 /-- `json.Unmarshal(body, &key)` for the key kinds of the harness; `none` = unmarshal error -/
 def parseKey (kk : KeyKind) (b : Bytes) : Option Nat :=
   match kk with
-  | .vk | .u64 | .uint => Codec.parseNat b
+  | .vk | .u64 | .uint => (Codec.parseNat b).bind fun n => if n < 2 ^ 64 then some n else none   -- uint64 range
   | .i64 | .int =>
       match b with
       | 45 :: rest => (Codec.parseNat rest).bind fun n => if n ≤ Codec.i64bias ∧ n ≠ 0 then some (Codec.i64bias - n) else none
-      | _ => (Codec.parseNat b).map (· + Codec.i64bias)
+      | _ => (Codec.parseNat b).bind fun n => if n < 2 ^ 63 then some (n + Codec.i64bias) else none   -- int64 range
   | .str =>
       match unquote b with
       | some s =>
